@@ -71,14 +71,14 @@ def check_case(ctx, case, record=True):
 def run(ctx):
     @given(regcommon.reg_cases(max_nodes=7, max_ops=3, faults=False, det_share=0, disturb_last=True), st.integers(0, 1))
     def test(case, plant):
-        check_case(ctx, dict(case, plant=plant))
+        runner.guarded(ctx, check_case, dict(case, plant=plant))
 
     runner.drive(ctx, test, ctx.n(240, 3000))
 
 
 def replay(ctx, case):
     try:
-        check_case(ctx, case["case"], record=False)
+        runner.guarded(ctx, check_case, case["case"], record=False)
     except runner.Violation as v:
         return v.msg
     return None
